@@ -43,7 +43,8 @@ Value& REPLACEExpression::value(Context & ctx) const
     case Type::NO_TYPE:
       return val;
     case Type::LITERAL:
-      if (a1.isNull())
+      /* nothing to find: also for the empty string, which would never end */
+      if (a1.isNull() || a1.literal()->empty())
         return val;
       break;
     default:
